@@ -4,6 +4,7 @@ CONSTANTS
  Shapes <- ShOk12
  MaxFaults = 0
  MaxCrashes = 0
+ MaxIdxLoss = 0
  InlineAt = 0
  Interval = 2
  MBs = {9,80}
